@@ -67,6 +67,8 @@ SPEC = {
         "reading of the frames for the oracle)",
         "checks/C20.py selects the model variant (recv(80) | whole datagram; built-ins over | under registered "
         "records) by looking at the two cited lines of dns_server.rs; the theorems cover both variants",
+        "multi-thread cases: the driver may re-linearise a cache-hit lookup (L moved in front of its R when an answer for the same "
+        "client lies between them; the harness logs L at call time, the cache check is later) before validating",
     ],
     "assumptions": [
         "partial: proof of the protocol logic + trace validation. The sockets/UDP/IPv4/ARP stack underneath is not "
